@@ -55,6 +55,11 @@ def worlds(tier, focus):
         # the parser reports its end late: after the last feature's scenarios have all finished
         for late in ((3, 6) if tier != 'thorough' else (1, 3, 6, 10)):
             W.append(('lazy-late-end late=%d' % late, World([Scen('a', 'C', 0, None, durs=(0,), fails=(False,))], 2, parser=[(0, 0), (late, 'end')])))
+        # a feature that consists of a rule whose scenarios were all filtered out arrives after everything else has run
+        for late in ((0, 3) if tier != 'thorough' else (0, 1, 3, 6)):
+            W.append(('late-empty-rule-feature late=%d' % late,
+                      World([Scen('a', 'C', 0, None, durs=(0,), fails=(False,))], 2, parser=[(0, 0), (late, 1)], empty_rule_features=(1,))))
+            W.append(('only-empty-rule-feature late=%d' % late, World([], 2, parser=[(late, 1)], empty_rule_features=(1,))))
         for da, db in (((6, 3), (5, 1)) if tier != 'thorough' else ((6, 3), (5, 1), (8, 2), (4, 4))):
             W.append(('late-serial a=%d b=%d' % (da, db),
                       World([Scen('a', 'C', 0, None, durs=(da,), fails=(False,)), Scen('b', 'C', 0, None, durs=(db,), fails=(False,)),
